@@ -32,6 +32,29 @@ def regen(ctx, kernel):
     return tr, defs
 
 
+def regen_ast(ctx, kernel, what):
+    """Regenerate coq/gen/Gen_<kernel>.v with an AST translator (translator/gen_<kernel>.py: generate(out, repo) ->
+    (info, names)) and build it.  A translator that refuses the source, or a generated file that does not compile,
+    is a broken proof obligation.  Returns (info, names) or (None, None)."""
+    try:
+        mod = importlib.import_module("gen_" + kernel)
+        out = os.path.join(common.COQ, "gen", "Gen_%s.v" % kernel)
+        with common.time_limit(120):
+            info, names = mod.generate(out, common.REPO)
+    except Exception as e:
+        ctx.proof_failures.append({"theorem": "(translator: Gen_%s.v could not be regenerated from source)" % kernel,
+                                   "error": "%s: %s" % (type(e).__name__, e), "trace": traceback.format_exc()[-800:]})
+        return None, None
+    ok, log, dt = common.coq_make(["gen/Gen_%s.vo" % kernel])
+    if not ok:
+        ctx.proof_failures.append({"theorem": "(generated model Gen_%s.v does not compile)" % kernel, **common.first_error(log)})
+        return None, None
+    ctx.extra.setdefault("generated", {})[kernel] = {"definitions": names}
+    ctx.trusted.append("translator /verif/translator/gen_%s.py (fail-closed Python-AST to Gallina): Gen_%s.v regenerated from %s/pyorbital on this run; %s"
+                       % (kernel, kernel, common.REPO, what))
+    return info, names
+
+
 def selfcheck(ctx, tr, defs, names, gen_env, impl, n, rtol=1e-9, atol=1e-9, label="translator DAG (binary64) vs interpreter"):
     import symtrace as st
     dd = {d[0]: d for d in defs}
